@@ -7,7 +7,7 @@
     PostgreSQL planners).  *)
 From Coq Require Import List NArith ZArith Bool.
 From Atlas Require Import Base.Bytes Qual.Builder Qual.BuilderProofs Qual.Scope Qual.ScopeProofs
-  Qual.RefSkeleton Qual.RefSkeletonProofs Qual.Lexq Qual.LexqProofs.
+  Qual.RefSkeleton Qual.RefSkeletonProofs Qual.Lexq Qual.LexqProofs Qual.Replay Qual.ReplayProofs.
 Import ListNotations.
 Open Scope N_scope.
 
@@ -241,6 +241,46 @@ Theorem C16_scope_no_panic :
   forall q mode cs, no_nil_schema cs -> CheckChangesScope q mode cs <> SPanic.
 Proof. intros q mode cs H. exact (loop_no_panic q mode cs H []). Qed.
 
+(** * 4 (round 3). Plans made from a replayed history: [migrate.Planner.plan], schema scope
+
+    Full statement: for every name of the dev database's schema and of the desired schema,
+    every history and every next desired state (all in ONE schema), the schema-scoped plan
+    requested with a qualifier is produced -- CheckChangesScope has no reason to see two schemas.
+
+    It is FALSE of the faithful model (Qual/Replay.v): Planner.plan renames a shallow copy of
+    the replayed schema object, the replayed tables keep pointing to the original, which
+    carries the dev database's name; a DropTable next to an Add/ModifyTable names two schemas.
+    Witness: dev schema "dev", desired schema "app", history [t1, t2], next state [t2, t3]
+    (reproduced on the Go code by stage [replay], class replay-plan-rejected-two-schemas,
+    recorded finding): *)
+Theorem C16_replay_refuted :
+  exists modified dev user cur des,
+  dev <> [] /\ user <> [] /\
+  Planner_plan modified false (Some []) 0 dev user [] cur des = PRejected (EMulti 2).
+Proof.
+  exists never, n_dev, n_app, [t1; t2], [t2; t3].
+  split; [discriminate|]. split; [discriminate|]. exact (proj1 replay_witness).
+Qed.
+
+(** What does hold.  (i) the code's exact condition: the plan is rejected iff the two names
+    differ, a table is dropped and a table is added or modified -- for every table-diff
+    function [modified], qualifier, mode, object changes and table lists; *)
+Theorem C16_replay_code :
+  forall modified q mode dev user objs cur des,
+  dev <> [] -> user <> [] ->
+  let cs := schema_diff modified dev user objs cur des in
+  ((exists r, Planner_plan modified false (Some q) mode dev user objs cur des = PRejected r) <->
+   (dev <> user /\ existsb is_drop cs = true /\ existsb is_addmod cs = true)).
+Proof. exact planner_rejects_iff. Qed.
+
+(** (ii) with the replayed schema object itself renamed (notes/fixes/C16-planner-replay-rename.diff)
+    the full statement holds. *)
+Theorem C16_replay_repaired :
+  forall modified q mode dev user objs cur des,
+  user <> [] ->
+  forall r, Planner_plan modified true (Some q) mode dev user objs cur des <> PRejected r.
+Proof. exact planner_deep_never_rejects. Qed.
+
 Print Assumptions C16_builder.
 Print Assumptions C16_builder_chain.
 Print Assumptions C16_builder_schema_kept.
@@ -254,6 +294,9 @@ Print Assumptions C16_one_identifier_call.
 Print Assumptions C16_quoted_chain_reads_back.
 Print Assumptions C16_pg_same_namespace_refuted.
 Print Assumptions C16_pg_same_namespace_except.
+Print Assumptions C16_replay_refuted.
+Print Assumptions C16_replay_code.
+Print Assumptions C16_replay_repaired.
 Print Assumptions C16_skeleton_partial.
 Print Assumptions C16_skeleton_no_bare_reference.
 Print Assumptions C16_scope_sound.
@@ -389,4 +432,15 @@ Example ex_pg_same_namespace :
   plain [97; 46; 98; 32; 99] /\
   typeIdent strconvQuote (Some [97; 46; 98; 32; 99]) (Some m_) t_ = [34; 97; 46; 98; 32; 99; 34; 46; 34; 116; 34] /\
   typeIdent strconvQuote (Some w_bs) None w_t = [34; 97; 92; 92; 98; 34; 46; 34; 116; 34].
+Proof. repeat split; vm_compute; reflexivity. Qed.
+
+(* C16_replay_*: the witness is rejected by the code as it is, planned by the repaired code, and
+   planned by the code as it is when the dev schema carries the desired name; a lone DROP TABLE
+   is planned (right-hand side of C16_replay_code false) *)
+Example ex_replay :
+  Planner_plan never false (Some []) 0 n_dev n_app [] [t1; t2] [t2; t3] = PRejected (EMulti 2) /\
+  Planner_plan never true (Some []) 0 n_dev n_app [] [t1; t2] [t2; t3] = PPlanned /\
+  Planner_plan never false (Some []) 0 n_app n_app [] [t1; t2] [t2; t3] = PPlanned /\
+  Planner_plan never false (Some []) 0 n_dev n_app [] [t1; t2] [t2] = PPlanned /\
+  Planner_plan never false (Some []) 0 n_dev n_app [] [t1; t2] [t1; t2] = PNoPlan.
 Proof. repeat split; vm_compute; reflexivity. Qed.
